@@ -333,11 +333,16 @@ def run(chk):
                     claim = H.eq_sc(lossv, ref)
                     pur = [_sum(_abs2(red_ref(i, x, y)) for x in range(dm) for y in range(dm)) for i in range(nt)]
                     terms = [(2 * (p_[i] * p_[i] - pur[i])) for i in range(nt)]
-                    if dA == 2 and dB == 2:
-                        det2 = [4 * _abs2(psi[i, 0, 0] * psi[i, 1, 1] - psi[i, 0, 1] * psi[i, 1, 0]) for i in range(nt)]
-                        for i_, (t_, d_) in enumerate(zip(terms, det2)):
-                            chk.add(f'{cfg} A3b: term {i_}: 2(p_i^2 - Tr rho_i^2) == (2|det psi_i|)^2 = (p_i C(psi_i/sqrt p_i))^2', base + path.facts,
-                                    H.eq_sc(t_, d_), key='concurrence model: term is not the pure-state concurrence', replay=rp)
+                    if dA == 2 and dB == 2 and pi == 0:
+                        # generic lemma (fresh 2x2 matrix): 2((Tr psi psi^dag)^2 - Tr (psi psi^dag)^2) == (2|det psi|)^2 ; with A1 (P_i = reduced state of psi_i) each term of the loss is
+                        # p_i C(psi_i / sqrt p_i), the pure-state concurrence weighted with its probability
+                        pg = A.plain(H.cx_array(tag + 'pg', (2, 2)))
+                        rg = [[_sum(S.as_sc(pg[x, b]) * S.as_sc(pg[y, b]).conjugate() for b in range(2)) for y in range(2)] for x in range(2)]
+                        pgn = _sum(_abs2(pg[x, y]) for x in range(2) for y in range(2))
+                        purg = _sum(_abs2(rg[x][y]) for x in range(2) for y in range(2))
+                        detg = 4 * _abs2(S.as_sc(pg[0, 0]) * pg[1, 1] - S.as_sc(pg[0, 1]) * pg[1, 0])
+                        chk.add(f'{cfg} A3b (lemma, every 2x2 psi): 2(p^2 - Tr rho^2) == (2|det psi|)^2 with p = Tr psi psi^dag, rho = psi psi^dag', [], H.eq_sc(2 * (pgn * pgn - purg), detg),
+                                key='concurrence model: term is not the pure-state concurrence', replay=rp)
                     what = 'sum_i sqrt(max(eps, 2(p_i^2 - Tr rho_i^2)))'
                 elif kind == 'linear_entropy':
                     eps = S.as_sc(float(torch.finfo(torch.float64).eps))
